@@ -137,6 +137,7 @@ class Config:
     max_depth: int = 14
     max_paths: int = 20000
     max_steps: int = 50000
+    mark_loops: bool = False
     max_seconds: float = 60.0
     record_loads: set = field(default_factory=set)  # field names whose reads on repo objects are recorded as effects
     no_inline: set = field(default_factory=set)  # repo functions treated as opaque effects
@@ -624,7 +625,7 @@ class Interp:
             cur = env.lookup("@current_exc")
             if cur is None:
                 self.raise_builtin(run, "RuntimeError", st, C("No active exception to reraise"))
-            raise RaiseSig(cur, st)
+            raise RaiseSig(cur, env.lookup("@current_exc_node") or st)  # keep the origin for diagnostics
         v = self.eval(run, st.exc, env)
         if isinstance(v, (Cls, Ext)):
             v = self.call(run, v, [], {}, st)
@@ -687,6 +688,12 @@ class Interp:
         elif isinstance(v, Ref) and isinstance(run.cell(v), HList):
             items = list(run.cell(v).items)
         else:
+            k = run.kind_of(v)
+            if k in ("strlist", "byteslist"):
+                ln = App("len", (v,), "int")
+                if not self.tf.decide_cmp(self, run, "==", ln, C(n), node):
+                    self.raise_builtin(run, "ValueError", node, C("unpack arity"))
+                return [App("index", (v, C(i)), "str" if k == "strlist" else "bytes") for i in range(n)]
             run.effect("unpack", (v, C(n)), node=node)
             return [App("item", (v, C(i))) for i in range(n)]
         if len(items) != n:
@@ -708,6 +715,8 @@ class Interp:
                 return
             if it >= self.cfg.loop_unroll and not single:
                 raise CutoffSig(f"while loop unrolled {it} times at {self.locof(st)}")
+            if self.cfg.mark_loops:
+                run.effect("loop.iter", (C(it),), node=st)
             try:
                 self.exec_block(run, st.body, env)
             except BreakSig:
@@ -820,6 +829,7 @@ class Interp:
                             env.vars[h.name] = r.exc
                         saved = env.vars.get("@current_exc")
                         env.vars["@current_exc"] = r.exc
+                        env.vars["@current_exc_node"] = r.node
                         try:
                             self.exec_block(run, h.body, env)
                         finally:
